@@ -1,0 +1,26 @@
+//go:build verif
+
+package embedfs
+
+// Contracts for the embed.FS loader (C19), checked by /verif/jetvc. Comments only.
+
+//@ func fs.Stat
+//@   trusted io/fs library
+//@   nopanic
+//@   ensures result1 == nil ==> result0 != nil
+//@ func (embed.FS).Open
+//@   trusted embed library
+//@   nopanic
+
+//@ func (*embedfs.embedFileSystemLoader).Exists
+//@   props C19
+//@   requires l != nil
+//@   nopanic
+//@   callsite fs.Stat 0 requires [exists-and-open-use-the-same-path] name == FJoin2(l.dir, caller.name)
+//@   check [directories-do-not-exist] result ==> lastret("fs.Stat", 1) == nil && !lastret("(fs.FileInfo).IsDir", 0)
+
+//@ func (*embedfs.embedFileSystemLoader).Open
+//@   props C19
+//@   requires l != nil
+//@   nopanic
+//@   callsite (embed.FS).Open 0 requires [exists-and-open-use-the-same-path] name == FJoin2(l.dir, caller.name)
